@@ -67,18 +67,20 @@ InByParams(recs, c, n) ==
   /\ ~\E m \in (c + 1)..(n - 1) :
         recs[m].k = "method" /\ ~Inlined(recs, m) /\ ParamKey(recs[m]) = ParamKey(recs[n])
 
-BlockAt(recs, c) ==
-  LET e == BlockEnd(recs, c)
-      ms == SelectIdx(c + 1, e, LAMBDA n : recs[n].k = "method")
+\* the block starting with the class record at c and ending with record e
+BlockAtE(recs, c, e) ==
+  LET ms == SelectIdx(c + 1, e, LAMBDA n : recs[n].k = "method")
       ps == SelectIdx(c + 1, e, LAMBDA n : InByParams(recs, c, n))
   IN  [original |-> recs[c].original, obfuscated |-> recs[c].obfuscated,
        entries |-> [k \in 1..Len(ms) |-> EntryOf(recs, c, ms[k])],
        byparams |-> [k \in 1..Len(ps) |-> EntryOf(recs, c, ps[k])]]
 
-\* all blocks in file order
+BlockAt(recs, c) == BlockAtE(recs, c, BlockEnd(recs, c))
+
+\* all blocks in file order (block k ends where block k+1 starts: computed from one pass)
 Blocks(recs) ==
   LET cs == SelectIdx(1, Len(recs), LAMBDA n : recs[n].k = "class")
-  IN  [k \in 1..Len(cs) |-> BlockAt(recs, cs[k])]
+  IN  [k \in 1..Len(cs) |-> BlockAtE(recs, cs[k], IF k < Len(cs) THEN cs[k + 1] - 1 ELSE Len(recs))]
 
 \* the block a class name resolves to: the last one with that obfuscated name
 \* (names are non-empty inside the stated domain; the library drops blocks with
